@@ -40,7 +40,7 @@ theorem every_operation_call_translated (lower : Bytes → Bytes) (s s1 s2 : VSt
     (hs : s.rightOp = .nil) (hp : visitAttrPath s path = .ok s1) (hv : visitLit s1 lit = .ok s2)
     (k : OpKind) (hk : s2.curOp = some k) (op : CmpOp) (w : Go.W) :
     GenOps.dispatch lower k op (Go.GoVal.ofV s2.leftOp) (Go.GoVal.ofR s2.rightOp) w
-      = OpsGen.embed w (apply lower k op s2.leftOp s2.rightOp) := by
+      = Go.embed w (apply lower k op s2.leftOp s2.rightOp) := by
   have h1 : s1.rightOp = .nil := by
     cases path with
     | nil => simp [visitAttrPath] at hp; subst hp; exact hs
